@@ -106,7 +106,10 @@ ExpectedVerdict(D) ==
         bad == {n \in R : Decl(D, n).defect \in TraversalDefects}
         badrec == {p \in recs : Decl(D, p[2]).defect = "rec_noproto"} \cup
                   {p \in recs : Decl(D, p[1]).defect = "rec_noaddl"}
-    IN  IF bad # {} THEN {ErrorOf(Decl(D, n).defect) : n \in bad}
+        (* build_node checks its derivation when the node is DECLARED, reachable from the output or not *)
+        declare == {i \in 1..Len(D.decls) : D.decls[i].defect = "generic_partial"}
+    IN  IF declare # {} THEN {"NonRedefinedGenericTypeError"}
+        ELSE IF bad # {} THEN {ErrorOf(Decl(D, n).defect) : n \in bad}
         ELSE IF \E p \in badrec : Decl(D, p[2]).defect = "rec_noproto"
              THEN {"IncorrectRecurrentMixinClass"}
              ELSE IF badrec # {} THEN {"IncorrectParamsRecurrentNode"} ELSE {"ok"}
